@@ -957,7 +957,8 @@ Lemma mk_tunion_members sp l :
 Proof.
   intros Hlen Hnd Hm. unfold mk_tunion.
   assert (E1 : map none_to_cls (map (mrt sp) l) = map (mrt sp) l).
-  { rewrite map_map. apply map_ext_in. intros c Hc. rewrite forallb_forall in Hm. now apply mrt_not_union. }
+  { rewrite map_map. apply map_ext_in. intros c Hc. rewrite forallb_forall in Hm.
+    destruct (mrt_not_union sp c (Hm c Hc)) as [_ E]. exact E. }
   assert (E2 : flat_map union_members (map (mrt sp) l) = map (mrt sp) l).
   { clear E1 Hlen Hnd. induction l as [|c l IHl]; [reflexivity|]. simpl in Hm. apply andb_true_iff in Hm as [Hc Hl].
     cbn [map flat_map]. destruct (mrt_not_union sp c Hc) as [-> _]. now rewrite IHl. }
@@ -1040,4 +1041,235 @@ Proof.
       * destruct x; try discriminate. reflexivity.
       * apply andb_true_iff in Hx2 as [_ Hxw]. rewrite !rt_none_iff by exact Hxw.
         rewrite Forall_forall in IH. apply IH; auto. now apply (existsb_false_In has_variadic l).
+Qed.
+
+(* ---------- how a grammar union is written in the typing / builtin spellings ---------- *)
+Lemma is_tnone_render sp c : member_ok c = true -> is_tnone (render sp c) = is_cnone c.
+Proof.
+  unfold member_ok. intros H. apply orb_true_iff in H as [H|H].
+  - destruct c; try discriminate. reflexivity.
+  - apply andb_true_iff in H as [_ Hw]. destruct c; try discriminate Hw; try reflexivity.
+    + cbn [wf_cty] in Hw. cbn [render is_tnone is_cnone]. now apply (wf_name_not_reserved n "None").
+    + destruct sp; cbn [render]; try reflexivity; destruct (existsb is_tnone _); try reflexivity;
+        destruct (filter _ _) as [|? [|? ?]]; reflexivity.
+Qed.
+
+Lemma existsb_tnone_render sp l :
+  forallb member_ok l = true -> existsb is_tnone (map (render sp) l) = existsb is_cnone l.
+Proof.
+  induction l as [|c l IH]; intros H; [reflexivity|]. simpl in H. apply andb_true_iff in H as [Hc Hl].
+  cbn [map existsb]. now rewrite is_tnone_render, IH.
+Qed.
+
+Lemma filter_tnone_render sp l :
+  forallb member_ok l = true ->
+  filter (fun t => negb (is_tnone t)) (map (render sp) l) = map (render sp) (filter (fun c => negb (is_cnone c)) l).
+Proof.
+  induction l as [|c l IH]; intros H; [reflexivity|]. simpl in H. apply andb_true_iff in H as [Hc Hl].
+  cbn [map filter]. rewrite is_tnone_render by exact Hc. destruct (is_cnone c); cbn [negb map]; now rewrite IH.
+Qed.
+
+Lemma none_last_split l :
+  none_only_last l = true -> existsb is_cnone l = true ->
+  exists l', l = l' ++ [CNone] /\ existsb is_cnone l' = false.
+Proof.
+  unfold none_only_last. intros H1 H2.
+  assert (E : existsb is_cnone (rev l) = true).
+  { apply existsb_exists in H2 as [x [Hx Hn]]. apply existsb_exists. exists x. split; [now apply in_rev in Hx|exact Hn]. }
+  destruct (rev l) as [|x r] eqn:Er; [discriminate|].
+  apply negb_true_iff in H1. cbn [existsb] in E. rewrite H1, orb_false_r in E.
+  destruct x; try discriminate. exists (rev r). split.
+  - rewrite <- (rev_involutive l), Er. reflexivity.
+  - destruct (existsb is_cnone (rev r)) eqn:E2; [|reflexivity].
+    apply existsb_exists in E2 as [y [Hy Hn]]. apply in_rev in Hy.
+    assert (existsb is_cnone r = true) by (apply existsb_exists; now exists y). congruence.
+Qed.
+
+Lemma filter_nonnone_id l : existsb is_cnone l = false -> filter (fun c => negb (is_cnone c)) l = l.
+Proof.
+  induction l as [|c l IH]; intros H; [reflexivity|]. cbn [existsb] in H. apply orb_false_iff in H as [Hc Hl].
+  cbn [filter]. rewrite Hc. cbn [negb]. now rewrite IH.
+Qed.
+
+Inductive union_written (sp : spelling) (l : list cty) : Prop :=
+| UWbar : sp = Sp604 -> render sp (CUnion l) = TBar (map (render sp) l) -> union_written sp l
+| UWunion : sp <> Sp604 -> existsb is_cnone l = false ->
+            render sp (CUnion l) = TSub "Union" (map (render sp) l) -> union_written sp l
+| UWopt1 a : sp <> Sp604 -> l = [a; CNone] -> is_cnone a = false ->
+             render sp (CUnion l) = TSub "Optional" [render sp a] -> union_written sp l
+| UWoptn l' : sp <> Sp604 -> l = l' ++ [CNone] -> 2 <= List.length l' -> existsb is_cnone l' = false ->
+              render sp (CUnion l) = TSub "Optional" [TSub "Union" (map (render sp) l')] -> union_written sp l.
+
+Lemma render_union_eq sp l :
+  render sp (CUnion l) =
+  match sp with
+  | Sp604 => TBar (map (render sp) l)
+  | _ => if existsb is_tnone (map (render sp) l) then
+           match filter (fun t => negb (is_tnone t)) (map (render sp) l) with
+           | [a] => TSub "Optional" [a]
+           | non => TSub "Optional" [TSub "Union" non]
+           end
+         else TSub "Union" (map (render sp) l)
+  end.
+Proof. destruct sp; reflexivity. Qed.
+
+Lemma render_union_nb sp l :
+  sp <> Sp604 -> forallb member_ok l = true ->
+  render sp (CUnion l) =
+  if existsb is_cnone l then
+    match map (render sp) (filter (fun c => negb (is_cnone c)) l) with
+    | [a] => TSub "Optional" [a]
+    | non => TSub "Optional" [TSub "Union" non]
+    end
+  else TSub "Union" (map (render sp) l).
+Proof.
+  intros Hsp Hm. rewrite render_union_eq.
+  destruct sp; [| |congruence]; rewrite existsb_tnone_render, filter_tnone_render by exact Hm; reflexivity.
+Qed.
+
+Lemma render_union sp l : wf_cty (CUnion l) = true -> union_written sp l.
+Proof.
+  intros Hw. destruct (wf_union_parts l Hw) as [Hlen [Hlast [Hnd Hm]]].
+  assert (Hsp : sp = Sp604 \/ sp <> Sp604) by (destruct sp; [right|right|left]; congruence).
+  destruct Hsp as [->|Hsp]; [apply UWbar; reflexivity|].
+  pose proof (render_union_nb sp l Hsp Hm) as E.
+  destruct (existsb is_cnone l) eqn:En; [|now apply UWunion].
+  destruct (none_last_split l Hlast En) as [l' [-> Hl']].
+  rewrite filter_app, (filter_nonnone_id l' Hl') in E. cbn [filter is_cnone negb] in E. rewrite app_nil_r in E.
+  destruct l' as [|a [|b l']].
+  - cbn [List.length app] in Hlen. lia.
+  - eapply UWopt1; [exact Hsp|reflexivity| |exact E].
+    cbn [existsb] in Hl'. now apply orb_false_iff in Hl' as [Hl' _].
+  - eapply UWoptn; [exact Hsp|reflexivity|cbn [List.length]; lia|exact Hl'|exact E].
+Qed.
+
+(* ---------- the meaning of a written annotation does not depend on the spelling ---------- *)
+Lemma cty_eqb_eq a : forall b, cty_eqb a b = true -> a = b.
+Proof.
+  induction a as [n| | |a IH|l IH|a IH|k v IHk IHv|l IH|] using cty_ind2; intros b H; destruct b; try discriminate; simpl in H.
+  - apply String.eqb_eq in H. now subst.
+  - reflexivity.
+  - reflexivity.
+  - f_equal. now apply IH.
+  - f_equal. now apply (list_go_eq cty_eqb).
+  - f_equal. now apply IH.
+  - apply andb_true_iff in H as [H1 H2]. f_equal; [now apply IHk|now apply IHv].
+  - f_equal. now apply (list_go_eq cty_eqb).
+  - reflexivity.
+Qed.
+
+Lemma cdedupe_nodup l : forall seen, NoDup l -> (forall x, In x l -> ~ In x seen) -> cdedupe l seen = l.
+Proof.
+  induction l as [|x l IH]; intros seen Hnd Hs; [reflexivity|].
+  inversion Hnd; subst. simpl.
+  destruct (cty_in x seen) eqn:E.
+  - unfold cty_in in E. apply existsb_exists in E as [y [Hy He]]. apply cty_eqb_eq in He. subst.
+    exfalso. apply (Hs y); [now left|exact Hy].
+  - f_equal. apply IH; [assumption|]. intros y Hy Hin. apply in_app_or in Hin as [Hin|[->|[]]].
+    + apply (Hs y); [now right|exact Hin].
+    + contradiction.
+Qed.
+
+Lemma cunion_flat L M : flat_map cmembers L = M -> NoDup M -> 2 <= List.length M -> cunion L = CUnion M.
+Proof.
+  intros E Hnd Hlen. unfold cunion. rewrite E, cdedupe_nodup; [|exact Hnd|intros x _ []].
+  destruct M as [|a [|b M]]; cbn [List.length] in Hlen; try lia. reflexivity.
+Qed.
+
+Lemma flat_cmembers_id l : (forall c, In c l -> is_cunion c = false) -> flat_map cmembers l = l.
+Proof.
+  induction l as [|c l IH]; intros H; [reflexivity|]. cbn [flat_map].
+  rewrite IH by (intros x Hx; apply H; now right).
+  specialize (H c (or_introl eq_refl)). destruct c; try discriminate; reflexivity.
+Qed.
+
+Lemma member_not_union c : member_ok c = true -> is_cunion c = false.
+Proof.
+  unfold member_ok. intros H. apply orb_true_iff in H as [H|H]; [destruct c; try discriminate; reflexivity|].
+  apply andb_true_iff in H as [H _]. now apply negb_true_iff in H.
+Qed.
+
+Lemma denote_bar ts : denote (TBar ts) = cunion (map denote ts).
+Proof. cbn [denote]. f_equal. induction ts as [|t ts IH]; [reflexivity|]. cbn [map]. now rewrite <- IH. Qed.
+
+Lemma denote_union args : denote (TSub "Union" args) = cunion (map denote args).
+Proof. cbn. f_equal. induction args as [|t ts IH]; [reflexivity|]. cbn [map]. now rewrite <- IH. Qed.
+
+Lemma denote_optional a : denote (TSub "Optional" [a]) = cunion [denote a; CNone].
+Proof. reflexivity. Qed.
+
+Lemma denote_list sp a : denote (TSub (gen_name sp OList) [a]) = CList (denote a).
+Proof. destruct sp; reflexivity. Qed.
+
+Lemma denote_dict sp k v : denote (TSub (gen_name sp ODict) [k; v]) = CDict (denote k) (denote v).
+Proof. destruct sp; reflexivity. Qed.
+
+Lemma denote_tuplevar sp a : denote (TSub (gen_name sp OTuple) [a; TName "..."]) = CTupleVar (denote a).
+Proof. destruct sp; reflexivity. Qed.
+
+Lemma denote_tuple sp args :
+  args <> [] -> (forall a d, args = [a; TName d] -> String.eqb d "..." = false) ->
+  denote (TSub (gen_name sp OTuple) args) = CTuple (map denote args).
+Proof.
+  intros Hne Hd.
+  assert (Hdens : forall l, (fix dens (l : list texp) : list cty :=
+                               match l with [] => [] | x :: r => denote x :: dens r end) l = map denote l).
+  { induction l as [|x l IH]; [reflexivity|]. cbn [map]. now rewrite <- IH. }
+  destruct args as [|a [|b [|c r]]]; [congruence| | |].
+  - destruct sp; reflexivity.
+  - destruct b as [d| |].
+    + specialize (Hd a d eq_refl). destruct sp; cbn; rewrite Hd; reflexivity.
+    + destruct sp; cbn; now rewrite Hdens.
+    + destruct sp; cbn; now rewrite Hdens.
+  - destruct b; destruct sp; cbn; now rewrite Hdens.
+Qed.
+
+Lemma render_name_not_dots sp b d : wf_cty b = true -> render sp b = TName d -> String.eqb d "..." = false.
+Proof.
+  destruct b; try discriminate; intros Hw E.
+  - cbn [render] in E. injection E as <-. cbn [wf_cty] in Hw. now apply (wf_name_not_reserved n "...").
+  - destruct sp; discriminate.
+  - destruct sp; discriminate.
+  - destruct sp; discriminate.
+  - destruct sp; discriminate.
+  - rewrite render_union_eq in E. destruct sp; try discriminate; destruct (existsb is_tnone _); try discriminate;
+      destruct (filter _ _) as [|? [|? ?]]; discriminate.
+Qed.
+
+Theorem denote_render sp c : wf_cty c = true -> denote (render sp c) = c.
+Proof.
+  induction c as [n| | |a IH|l IH|a IH|k v IHk IHv|l IH|] using cty_ind2; intros Hw; try discriminate.
+  - cbn [wf_cty] in Hw. cbn [render denote].
+    now rewrite (wf_name_not_reserved n "None" Hw eq_refl), (wf_name_not_reserved n "..." Hw eq_refl).
+  - cbn [wf_cty] in Hw. cbn [render]. now rewrite denote_list, IH.
+  - cbn [wf_cty] in Hw. apply andb_true_iff in Hw as [Hne Hl]. rewrite forallb_forall in Hl. rewrite Forall_forall in IH.
+    cbn [render]. rewrite denote_tuple.
+    + f_equal. rewrite map_map. apply map_id_Forall. rewrite Forall_forall. intros x Hx. apply IH; auto.
+    + destruct l; [discriminate|discriminate].
+    + intros a d E. destruct l as [|x [|y [|z r]]]; try discriminate. cbn [map] in E. injection E as _ E.
+      apply (render_name_not_dots sp y d); [apply Hl; right; now left|exact E].
+  - cbn [wf_cty] in Hw. cbn [render]. now rewrite denote_tuplevar, IH.
+  - cbn [wf_cty] in Hw. apply andb_true_iff in Hw as [Hk Hv]. cbn [render]. now rewrite denote_dict, IHk, IHv.
+  - destruct (wf_union_parts l Hw) as [Hlen [Hlast [Hnd Hm]]].
+    assert (Hmem : forall l0, (forall x, In x l0 -> In x l) -> map denote (map (render sp) l0) = l0).
+    { intros l0 Hsub. rewrite map_map. apply map_id_Forall. rewrite Forall_forall. intros x Hx0. pose proof (Hsub x Hx0) as Hx.
+      rewrite forallb_forall in Hm. specialize (Hm x Hx). unfold member_ok in Hm. apply orb_true_iff in Hm as [Hn|Hx2].
+      - destruct x; try discriminate. reflexivity.
+      - apply andb_true_iff in Hx2 as [_ Hxw]. rewrite Forall_forall in IH. now apply IH. }
+    assert (Hnu : forall c, In c l -> is_cunion c = false).
+    { intros c Hc. rewrite forallb_forall in Hm. now apply member_not_union, Hm. }
+    destruct (render_union sp l Hw) as [Hsp E|Hsp Hn E|a Hsp El Ha E|l' Hsp El Hl' Hn E]; rewrite E.
+    + rewrite denote_bar, Hmem by auto. apply cunion_flat; [now apply flat_cmembers_id|exact Hnd|exact Hlen].
+    + rewrite denote_union, Hmem by auto. apply cunion_flat; [now apply flat_cmembers_id|exact Hnd|exact Hlen].
+    + subst l. rewrite denote_optional.
+      assert (Ea : denote (render sp a) = a).
+      { specialize (Hmem [a]). cbn [map] in Hmem. assert (H0 : [denote (render sp a)] = [a]).
+        { apply Hmem. intros x [<-|[]]. now left. } now injection H0. }
+      rewrite Ea. apply cunion_flat; [now apply flat_cmembers_id|exact Hnd|exact Hlen].
+    + subst l. rewrite denote_optional, denote_union, Hmem by (intros x Hx; apply in_or_app; now left).
+      assert (Hnd' : NoDup l') by (apply NoDup_app_remove_r in Hnd; exact Hnd).
+      assert (Hnu' : forall c, In c l' -> is_cunion c = false) by (intros c Hc; apply Hnu; apply in_or_app; now left).
+      rewrite (cunion_flat l' l' (flat_cmembers_id l' Hnu') Hnd' Hl').
+      apply cunion_flat; [|exact Hnd|exact Hlen].
+      cbn [flat_map cmembers]. now rewrite app_nil_r.
 Qed.
